@@ -83,7 +83,7 @@ def nontrivial(raw):
 def stats(raw):
     return {k: raw.count(' ' + k + ' ') for k in ('mpi.post', 'mpi.eager', 'mpi.ydone', 'mpi.enq', 'mpi.q2v', 'mpi.ready',
                                                   'mpi.testany', 'mpi.call', 'mpi.woke', 'mpi.sig', 'x.cont', 'tm.waitret',
-                                                  'mpi.pollon', 'mpi.stopret')}
+                                                  'mpi.pollon', 'mpi.stopret', 'x.rel')}
 
 
 e2check.run(dict(
@@ -94,7 +94,9 @@ e2check.run(dict(
          '(yield_while, suspend_resume, new_task, continuation) x request_inline x completion_inline x high_priority, with '
          'and without a dedicated polling pool (single-threaded poller when the pool is on and requests are transferred), '
          'MPI_Testsome and MPI_Testany pollers; variants with failing operations (invalid rank: error at the call; truncated '
-         'receive: error at completion), throwing callables, and pika::wait() called while submitters still run; PRNG timing '
+         'receive: error at completion), throwing callables, and pika::wait() called while submitters still run; a third of the plain '
+         'sends / receives pass their buffer BY VALUE (a move-only handle the adaptor owns; its destructor logs the release, '
+         'checks a receive buffer is filled and scrubs the memory); PRNG timing '
          'perturbation at the instrumented sites; non-trivial = at least one request went through the registry and its '
          'callback; distinct = distinct argv',
     assumptions=["MPI's own behaviour is assumed: a request reported complete by MPI_Test/Testsome/Testany is complete (the "
